@@ -15,7 +15,7 @@ EXPLANATION = (
 
 
 def check(ctx, run):
-    run.rules_run = ['R04.1', 'R04.2', 'R04.3', 'R04.4', 'R04.5', 'R04.6']
+    run.rules_run = ['R04.1', 'R04.2', 'R04.3', 'R04.4', 'R04.5', 'R04.6', 'R04.7']
     ordering.r04_1(ctx, run)
     ordering.r04_2(ctx, run)
     ordering.r04_2b(ctx, run)
@@ -26,4 +26,6 @@ def check(ctx, run):
     walkers.w_init(ctx, run, 'R04.5/R05.1', only=only, floor=4)
     walkers.w_advance(ctx, run, 'R04.5/R05.2', only=only, floor=4)
     ordering.r04_6(ctx, run)
+    from rules import layout as _layout
+    _layout.r01_2(ctx, run, rule='R04.7/R01.2')
     return report.finish(run, level='other', explanation=EXPLANATION, assumptions=["A1: valid documents", "ordered-float contract for f64"])
